@@ -137,8 +137,15 @@ def gen_session(rng, focus: str, tier: str = "quick"):
                     faults.append(f)
             if rng.random() < 0.4:
                 for _ in range(rng.randint(1, 3)):
-                    operator.append({"at_us": c["start_at_us"] + rng.randint(0, ncheck * st * 1000 // 2), "client": c["k"],
-                                     "restart": True, "delay_us": rng.choice([1000, 500_000, st * 1000])})
+                    op = {"at_us": c["start_at_us"] + rng.randint(0, ncheck * st * 1000 // 2), "client": c["k"],
+                          "restart": True, "delay_us": rng.choice([1000, 500_000, st * 1000])}
+                    if rng.random() < 0.45:
+                        # the same client object is run again (same beacon id), half of the time with other host details
+                        op["reuse_object"] = True
+                        if rng.random() < 0.6:
+                            op["run_override"] = {"user": rng.choice(_NAMES) + "2", "computer": rng.choice(_NAMES), "process": "other.exe",
+                                                  "pid": rng.choice([None, 31337]), "internal_ip": "172.16.0.9"}
+                    operator.append(op)
         horizon = max(horizon, c["start_at_us"] + (ncheck + ntasks + 4) * st * 1000 + (12_000_000 if faulty else 0))
     if rng.random() < 0.5:
         for _ in range(rng.randint(1, 4)):
